@@ -1138,6 +1138,27 @@ func c12FullFileTailRewrite(rep *Report, m *model.Client) {
 	}
 }
 
+// c12FullFileAckThenFailedFlush: the file (shared with an application) is completely full; an ACK needs the overflow
+// area (its pages lie behind the size limit); the producer's next flush still finds the file full and is rolled back;
+// the queue is closed and opened again: everything that was flushed and not ACKed is still there (seeded change
+// C12n: the rollback truncates the file to the data end marker and cuts the ACK's pages off).
+func c12FullFileAckThenFailedFlush(rep *Report, m *model.Client) {
+	for i := 0; i < 6; i++ {
+		ps := []int{1024, 4096}[i%2]
+		cfg := pqengine.Config{PageSize: uint32(ps), MaxSize: uint64(64 * ps), WriteBuffer: 0}
+		ops := []pqengine.Op{{Kind: "event", N: ps - 100, Seed: 1}, {Kind: "event", N: ps - 100, Seed: 2}, {Kind: "flush"},
+			{Kind: "appfill", N: 4 + i/2}}
+		for k := 0; k < 10; k++ {
+			ops = append(ops, pqengine.Op{Kind: "event", N: ps - 100, Seed: 3 + k}, pqengine.Op{Kind: "flush"})
+		}
+		ops = append(ops, pqengine.Op{Kind: "ack", N: 1}, pqengine.Op{Kind: "event", N: 2 * ps, Seed: 20}, pqengine.Op{Kind: "flush"},
+			pqengine.Op{Kind: "ack", N: 1}, pqengine.Op{Kind: "flush"},
+			pqengine.Op{Kind: "reopen"}, pqengine.Op{Kind: "apprelease"}, pqengine.Op{Kind: "flush"}, pqengine.Op{Kind: "event", N: 9, Seed: 21}, pqengine.Op{Kind: "flush"})
+		runPQHistory(rep, cfg, ops, int64(7200+i), "c12-ack-full", nil, nil)
+		rep.count("scenario:full-shared-file/ack-then-failed-flush-then-reopen", 1)
+	}
+}
+
 func runPQStress(rep *Report, r *rand.Rand, n int) {
 	// directed: reader hand-over under a pending commit
 	for i := 0; i < 3+n/20; i++ {
@@ -1275,6 +1296,7 @@ func init() {
 		c12FillLevels(rep)
 		c12DrainThenFlush(rep)
 		c12FullFileTailRewrite(rep, m)
+		c12FullFileAckThenFailedFlush(rep, m)
 		for i := 0; i < n; i++ {
 			if rep.outOfTime() {
 				break
